@@ -35,7 +35,7 @@ def split_scenarios(text):
     return blocks
 
 
-def run_driver(qsx, scen_text, workdir, tag, crash_props, call_timeout=20, wall=600, env=None, one_per_process=False):
+def run_driver(qsx, scen_text, workdir, tag, crash_props, call_timeout=60, wall=1800, env=None, one_per_process=False):
     """run all scenario blocks; restart after a crash with the remaining blocks.
     returns (events, info) - events: list of cooked event dicts"""
     os.makedirs(workdir, exist_ok=True)
